@@ -297,7 +297,7 @@ func (g *Gen) pattern() []Event {
 			evs = append(evs, endOfBlock()...)
 			if g.family == "genesis" {
 				// export and re-import while the shared buckets are pending, then slash and let them mature on the imported state
-				evs = append(evs, block(1, Event{Ev: "ExportImport"}, Event{Ev: "SlashHook", V: g.vname(), F: g.fraction()})...)
+				evs = append(evs, block(1, Event{Ev: pick(g.r, []string{"ExportImport", "ForkImport"})}, Event{Ev: "SlashHook", V: g.vname(), F: g.fraction()})...)
 			}
 			if U > 1 {
 				evs = append(evs, block(U-1)...)
@@ -322,7 +322,7 @@ func (g *Gen) pattern() []Event {
 			evs = append(evs, Event{Ev: "Redelegate", D: d, Src: dst, Dst: g.otherVal(dst), A: a, X: "1"}) // onward hop: must be refused
 			evs = append(evs, endOfBlock()...)
 			if g.family == "genesis" {
-				evs = append(evs, block(1, Event{Ev: "ExportImport"}, Event{Ev: "Redelegate", D: d, Src: dst, Dst: g.otherVal(dst), A: a, X: "1"})...)
+				evs = append(evs, block(1, Event{Ev: pick(g.r, []string{"ExportImport", "ForkImport"})}, Event{Ev: "Redelegate", D: d, Src: dst, Dst: g.otherVal(dst), A: a, X: "1"})...)
 			}
 			if U > 1 {
 				evs = append(evs, block(U-1, Event{Ev: "SlashHook", V: v, F: g.fraction()})...)
@@ -500,7 +500,8 @@ func (g *Gen) next() Event {
 		opts = append(opts, weighted{govW, func() Event { return g.govEvent() }})
 	}
 	if fam == "genesis" && g.early {
-		opts = append(opts, weighted{12, func() Event { return Event{Ev: "ExportImport"} }})
+		opts = append(opts, weighted{8, func() Event { return Event{Ev: "ExportImport"} }})
+		opts = append(opts, weighted{8, func() Event { return Event{Ev: "ForkImport"} }})
 	}
 	if donateW > 0 {
 		opts = append(opts, weighted{donateW, func() Event { return Event{Ev: "Donate", D: g.dname(), A: g.aname(), X: g.amount()} }})
@@ -630,7 +631,7 @@ func RunSchedule(w *World, s *Schedule, tw *TraceWriter, gen *Gen, n int) {
 	}
 	st := w.Project(w.Ctx)
 	cfg := w.Cfg
-	tw.Write(Record{I: 0, Ev: "Init", Args: Event{Ev: "Init"}, Res: Result{Ok: true}, Post: &st, Probes: []Probe{}, Cfg: &cfg, Trace: s.Name})
+	tw.Write(Record{I: 0, Ev: "Init", Args: Event{Ev: "Init"}, Res: Result{Ok: true}, Post: &st, Probes: []Probe{}, Mirror: []Mirror{}, Cfg: &cfg, Trace: s.Name})
 	i := 0
 	for {
 		var e Event
@@ -649,12 +650,13 @@ func RunSchedule(w *World, s *Schedule, tw *TraceWriter, gen *Gen, n int) {
 		i++
 		if e.Branch {
 			res, _, ps := w.branchExec(e, true)
-			tw.Write(Record{I: i, Ev: e.Ev, Args: e, Res: res, Post: ps, Probes: []Probe{}})
+			tw.Write(Record{I: i, Ev: e.Ev, Args: e, Res: res, Post: ps, Probes: []Probe{}, Mirror: []Mirror{}})
 			continue
 		}
+		mir := w.ExecMirror(e)
 		res := w.ExecDet(e, s.Det)
 		post := w.Project(w.Ctx)
-		rec := Record{I: i, Ev: e.Ev, Args: e, Res: res, Post: &post, Probes: []Probe{}}
+		rec := Record{I: i, Ev: e.Ev, Args: e, Res: res, Post: &post, Probes: []Probe{}, Mirror: mir}
 		every := s.Every
 		if every < 1 {
 			every = 1
